@@ -21,6 +21,9 @@ func (a *A) C19() {
 	// "each assembled unit exactly once": the accumulator that receives a packet is the one the pool's map holds under the
 	// packet's PID (I1 of C07) — a cached accumulator outlives the drain that already handed its packets to the parser
 	a.keyedByPID()
+	// the only packets that never reach an accumulator (and so never the parser) are those with the transport error
+	// indicator or without payload (S5 of C06/C07): no PID is exempt
+	a.filtersFirst()
 }
 
 func (a *A) global(name string) *ssa.Global {
